@@ -84,6 +84,8 @@ def _regex_admits(pattern: Any, chars: str) -> Optional[bool]:
 def run(ch: Checker) -> None:
     prog = ch.prog
     ce = ConstEval(prog)
+    ch.rule('C14.9', 'request line = exactly three tokens split from the left: on every path that accepts a request line, the target handed to set_url is token [1] of `<line>.split(SP, 2)` '
+                     '(or of a full split of length 3), the method token [0] and the version token [2]; a target containing a space never ends up inside the URL', 1)
     ch.rule('C14.1', 'connect_upstream creates/acquires the upstream for (text_(request.host), request.port) and connects to that address unless a plugin resolved another IP; '
                      'TcpServerConnection.connect hands `addr or self.addr` to new_socket_connection; _set_line_attributes takes host/port from Url.hostname/Url.port', 4)
     ch.rule('C14.2', 'new_socket_connection: every path to ip_address()/connect()/create_connection() either established that the host is not bracketed or replaced it by the unbracketed text; '
@@ -297,6 +299,34 @@ def run(ch: Checker) -> None:
     hts = [norm(h.type) if h.type is not None else 'bare' for h in handlers]
     ch.check(hts == ['ValueError'], 'C14.5', nsc, 'only ValueError swallowed', 'only "not an IP literal" is swallowed', 'new_socket_connection swallows %s: a failed connect to a literal address falls through to name resolution' % hts)
     ch.check(bad5 is None, 'C14.5', nsc, 'family / fall-through', 'v4/v6 sockets by ip.version; fall-through resolves the same address', bad5[0] if bad5 else '', witness=bad5[1] if bad5 else None)
+
+    # ---------------- C14.9 request-line tokens
+    pl9 = prog.own_method('HttpParser', '_process_line')
+    g9 = cfg_of(pl9, prog, exc_edges=False)
+    bad9 = None
+    n9 = 0
+    for p in fpaths(g9):
+        ch.paths += 1
+        sym = Sym(p)
+        for i, st in p.stmts():
+            for c in walk_no_nested(st):
+                if isinstance(c, ast.Call) and attr_chain(c.func) == 'self.set_url' and c.args:
+                    n9 += 1
+                    v = sym.value(c.args[0], i)
+                    okv = isinstance(v, ast.Subscript) and ce.try_eval(pl9.module, v.slice) == 1 and isinstance(v.value, ast.Call) and isinstance(v.value.func, ast.Attribute) \
+                        and v.value.func.attr == 'split' and (not v.value.args or ce.try_eval(pl9.module, v.value.args[0]) == b' ') \
+                        and (len(v.value.args) < 2 or ce.try_eval(pl9.module, v.value.args[1]) == 2)
+                    if okv:
+                        # the accepting path must have established that there are exactly three tokens
+                        fd = allfacts(p, i)
+                        three = any(val is True and k.replace(' ', '').startswith('len(') and k.replace(' ', '').endswith('==3') and '.split(' in k for k, val in fd.items())
+                        if not three:
+                            bad9 = ('the request target is taken from %s without the line having been checked to consist of three tokens' % norm(v)[:60], p.describe(16))
+                    else:
+                        bad9 = ('the request target handed to set_url is %s, not token [1] of a left-to-right three-way split of the request line: with partition/rpartition (or a split from the '
+                                'right) everything between the first and the last space -- spaces included -- becomes the target, so a damaged line such as `GET http://a @b/ HTTP/1.1` is '
+                                'accepted and routed to `b` instead of being rejected' % norm(v)[:70], p.describe(16))
+    ch.check(bad9 is None and n9 > 0, 'C14.9', pl9, 'request line tokens', 'target = token [1] of a checked three-way split (%d path(s))' % n9, bad9[0] if bad9 else 'set_url is never called', witness=bad9[1] if bad9 else None)
 
     # ---------------- C14.7
     _authority_split(ch, ce)
